@@ -57,6 +57,15 @@ func (p *Proof) IsValid(public Public) bool {
 	if p == nil {
 		return false
 	}
+	// every field is needed below: a proof with a missing field is not valid
+	if p.Commitment == nil ||
+		p.Z == nil ||
+		p.U == nil ||
+		p.A == nil ||
+		p.N == nil ||
+		p.B == nil {
+		return false
+	}
 	if p.A.IsIdentity() || p.N.IsIdentity() || p.B.IsIdentity() {
 		return false
 	}
